@@ -496,4 +496,187 @@ Section Sys.
              destruct (t_mach m), (t_jobs m); reflexivity.
       + intros _. rewrite (SK_fput s2' (length os) z (C0 m) Hn2 Hsk). exact Hh.
   Qed.
+
+  Lemma subscribed_lt s i o : In (i, o) (subscribed s) -> (i < length (f_objs s))%nat.
+  Proof.
+    unfold subscribed. intros H. apply in_flat_map in H. destruct H as (j & _ & H).
+    destruct (nth_error (f_objs s) j) as [o'|] eqn:E; [|contradiction]. destruct H as [H|[]]. inversion H; subst.
+    apply nth_error_Some. congruence.
+  Qed.
+
+  (** *** Every constructor call keeps the system good *)
+  Theorem f_new_good k m cs s :
+    Good s ->
+    (forall l c, cs = Some l -> In c l -> (c < length (f_objs s))%nat) ->
+    Good (fst (f_new I fs d0 k m cs s)).
+  Proof.
+    intros HG Hcs. unfold f_new. destruct (negb (ftm_sub m (supported k))); [exact HG|].
+    destruct k.
+    - (* IsReady *)
+      cbn [fappend fst]. rewrite (simple_is_robj FIsReady m empty_sys) by tauto.
+      apply good_append; try exact HG.
+      + rewrite (robj_ext I fs d0 _ empty_sys); [apply robj_idem|]. destruct m as [[] [] []]; intros c [].
+      + destruct m as [[] [] []]; intros c [].
+      + destruct m as [[] [] []]; discriminate.
+      + destruct m as [[] [] []]; discriminate.
+    - (* EarliestStartTime *)
+      cbn [fappend fst]. rewrite (est_is_robj m empty_sys).
+      apply good_append; try exact HG.
+      + rewrite (robj_ext I fs d0 _ empty_sys); [apply robj_idem|]. destruct m as [[] [] []]; intros c [].
+      + destruct m as [[] [] []]; intros c [].
+      + destruct m as [[] [] []]; discriminate.
+      + destruct m as [[] [] []]; discriminate.
+    - (* Duration *)
+      cbn [fappend fst]. rewrite (simple_is_robj FDuration m empty_sys) by tauto.
+      apply good_append; try exact HG.
+      + rewrite (robj_ext I fs d0 _ empty_sys); [apply robj_idem|]. destruct m as [[] [] []]; intros c [].
+      + destruct m as [[] [] []]; intros c [].
+      + destruct m as [[] [] []]; discriminate.
+      + destruct m as [[] [] []]; discriminate.
+    - (* IsScheduled *)
+      cbn [fappend fst]. rewrite (simple_is_robj FIsScheduled m empty_sys) by tauto.
+      apply good_append; try exact HG.
+      + rewrite (robj_ext I fs d0 _ empty_sys); [apply robj_idem|]. destruct m as [[] [] []]; intros c [].
+      + destruct m as [[] [] []]; intros c [].
+      + destruct m as [[] [] []]; discriminate.
+      + destruct m as [[] [] []]; discriminate.
+    - (* PositionInJob *)
+      cbn [fappend fst]. rewrite (simple_is_robj FPosInJob m empty_sys) by tauto.
+      apply good_append; try exact HG.
+      + rewrite (robj_ext I fs d0 _ empty_sys); [apply robj_idem|]. destruct m as [[] [] []]; intros c [].
+      + destruct m as [[] [] []]; intros c [].
+      + destruct m as [[] [] []]; discriminate.
+      + destruct m as [[] [] []]; discriminate.
+    - (* RemainingOperations *)
+      destruct (new_remops_shape m s) as (news & Hnews & Ho & Hs & Hh).
+      destruct (new_remops I d0 m s) as [s1 i] eqn:E. cbn [fst] in *.
+      apply (good_extend s s1 news HG Ho Hs).
+      + intros o Hin. destruct Hnews as [->| ->]; destruct Hin as [<-|Hin]; try apply R0_fixed;
+          try (destruct Hin as [<-|[]]; apply U0_fixed); destruct Hin.
+      + intros o c Hin Hc. exfalso.
+        assert (Hnil : fo_comps o = []).
+        { destruct Hnews as [->| ->]; destruct Hin as [<-|Hin];
+            try (destruct m as [[] [] []]; reflexivity); try (destruct Hin as [<-|[]]; reflexivity); destruct Hin. }
+        rewrite Hnil in Hc. destruct Hc.
+      + intros o Hin. split; [intros _; exact Hh|]. intros E2. exfalso.
+        destruct Hnews as [->| ->]; destruct Hin as [<-|Hin];
+          try (destruct m as [[] [] []]; discriminate); try (destruct Hin as [<-|[]]; discriminate); destruct Hin.
+    - (* IsCompleted *)
+      destruct (new_completed_shape m s) as (rest & Hrest & Ho & Hs & Hh1 & Hh2).
+      cbn [fappend fst snd]. unfold fappend in *. cbn [fst] in *.
+      apply (good_extend s _ (C0 m :: rest) HG Ho Hs).
+      + intros o [<-|Hin]; [apply C0_fixed|].
+        destruct Hrest as [->|[->| ->]]; [destruct Hin|destruct Hin as [<-|[]]; apply R0_fixed|].
+        destruct Hin as [<-|[<-|[]]]; [apply R0_fixed|apply U0_fixed].
+      + intros o c Hin Hc. exfalso.
+        assert (Hnil : fo_comps o = []).
+        { destruct Hin as [<-|Hin]; [destruct m as [[] [] []]; reflexivity|].
+          destruct Hrest as [->|[->| ->]]; [destruct Hin|destruct Hin as [<-|[]]; destruct m as [? [] []]; reflexivity|].
+          destruct Hin as [<-|[<-|[]]]; [destruct m as [? [] []]; reflexivity|reflexivity]. }
+        rewrite Hnil in Hc. destruct Hc.
+      + intros o Hin. destruct Hin as [<-|Hin].
+        * split; [destruct m as [[] [] []]; discriminate|]. intros _.
+          replace (isSome (fo_mach (C0 m))) with (t_mach m) by (destruct m as [[] [] []]; reflexivity).
+          replace (isSome (fo_jobs (C0 m))) with (t_jobs m) by (destruct m as [[] [] []]; reflexivity).
+          exact Hh1.
+        * assert (Hne : rest <> []) by (intro; subst; destruct Hin).
+          split; [intros _; apply Hh2; exact Hne|]. intros E2. exfalso.
+          destruct Hrest as [->|[->| ->]]; [destruct Hin|destruct Hin as [<-|[]]; destruct m as [? [] []]; discriminate|].
+          destruct Hin as [<-|[<-|[]]]; [destruct m as [? [] []]; discriminate|discriminate].
+    - (* Composite *)
+      set (comps := match cs with
+                    | Some l => l
+                    | None => map fst (filter (fun io => is_feature_kind (fo_kind (snd io))) (subscribed s))
+                    end).
+      assert (Hlt : forall c, In c comps -> (c < length (f_objs s))%nat).
+      { intros c Hc. unfold comps in Hc. destruct cs as [l|]; [apply (Hcs l c eq_refl Hc)|].
+        apply in_map_iff in Hc. destruct Hc as ([i o] & <- & Hin). apply filter_In in Hin. destruct Hin as [Hin _].
+        apply (subscribed_lt s i o Hin). }
+      destruct (negb (forallb (fun c => ftm_sub (fo_mask (fget s c)) m) comps)); [exact HG|].
+      destruct s as [os ss]. unfold fappend. cbn [f_objs f_subs fst]. rewrite fget_mid, fput_mid.
+      set (s1 := mkfs (os ++ [blank FComposite]) (ss ++ [length os])).
+      set (K := set_comp (blank FComposite) comps (comp_mats s1 comps) (comp_names s1 comps)).
+      change (mkfs (os ++ [K]) (ss ++ [length os])) with (fst (fappend (mkfs os ss) K)).
+      apply good_append; try exact HG; try discriminate.
+      + unfold fappend. cbn [fst f_objs f_subs]. unfold K.
+        change (robj I fs d0 (mkfs (os ++ [set_comp (blank FComposite) comps (comp_mats s1 comps) (comp_names s1 comps)])
+                                   (ss ++ [length os]))
+                     (set_comp (blank FComposite) comps (comp_mats s1 comps) (comp_names s1 comps)))
+          with (set_comp (blank FComposite) comps
+                  (comp_mats (mkfs (os ++ [set_comp (blank FComposite) comps (comp_mats s1 comps) (comp_names s1 comps)])
+                                   (ss ++ [length os])) comps) (comp_names s1 comps)).
+        f_equal. apply comp_mats_ext. intros c Hc. pose proof (Hlt c Hc) as Hl. cbn [f_objs] in Hl.
+        unfold fget, s1. cbn [f_objs]. rewrite !app_nth1 by exact Hl. reflexivity.
+      + intros c Hc. apply Hlt. exact Hc.
+    - (* UnscheduledOperations *)
+      destruct (existsb (fun io => fkind_eqb (fo_kind (snd io)) FUnsched) (subscribed s)); [exact HG|].
+      rewrite unsched_obj_init. cbn [fappend fst].
+      apply good_append; try exact HG; try discriminate; [reflexivity|intros c []].
+  Qed.
+
+  (** *** Creation scripts: any sequence of constructor calls *)
+  Record cstep := mkcs { cs_kind : fkind; cs_mask : ftm; cs_comps : option (list nat) }.
+  Definition create1 (d : dstate) (s : fsys) (c : cstep) : fsys :=
+    fst (f_new I fs d (cs_kind c) (cs_mask c) (cs_comps c) s).
+  Definition create (d : dstate) (sc : list cstep) (s : fsys) : fsys := fold_left (create1 d) sc s.
+
+  (** a composite is handed observer OBJECTS: its explicit components exist
+      when it is constructed *)
+  Fixpoint scoped (d : dstate) (sc : list cstep) (s : fsys) : Prop :=
+    match sc with
+    | [] => True
+    | c :: t => (forall l x, cs_comps c = Some l -> In x l -> (x < length (f_objs s))%nat) /\
+                scoped d t (create1 d s c)
+    end.
+
+  Lemma create_good sc : forall s, Good s -> scoped d0 sc s -> Good (create d0 sc s).
+  Proof.
+    induction sc as [|c t IH]; intros s HG Hsc; [exact HG|]. destruct Hsc as [H1 H2].
+    cbn [create fold_left]. apply IH; [|exact H2]. apply f_new_good; assumption.
+  Qed.
+
+  (** *** The dispatcher world *)
+  Lemma reset_fw d s : fst (reset f_reset I (fw fs d s)) = fw fs d0 (f_reset I fs d0 s).
+  Proof. destruct d as [mf jn jf sc]. reflexivity. Qed.
+
+  Lemma run_Rel s0 : forall rs d s, Rel s s0 ->
+    exists s', run_from fsys f_update I (fw fs d s) rs = fw fs (fold_left (apply_req I) rs d) s' /\ Rel s' s0.
+  Proof.
+    induction rs as [|r t IH]; intros d s HR; [exists s; split; [reflexivity|exact HR]|].
+    unfold run_from in *. cbn [fold_left]. rewrite fw_step.
+    destruct (sop_of_request I d r) as [x|] eqn:E.
+    - assert (Hreq : apply_req I d r = apply_sop I d x (row_of d x)) by (unfold apply_req; rewrite E; reflexivity).
+      rewrite Hreq. cbv zeta. apply IH. apply Rel_update; [|exact HR].
+      destruct (sop_of_request_accepted I d r x E) as (o & Ha).
+      apply (get_op_pos_lt I (s_job x) (s_pos x) o).
+      rewrite (a_job _ _ _ _ _ _ Ha), (a_pos _ _ _ _ _ _ Ha). exact (a_op _ _ _ _ _ _ Ha).
+    - assert (Hreq : apply_req I d r = d) by (unfold apply_req; rewrite E; reflexivity).
+      rewrite Hreq. apply IH. exact HR.
+  Qed.
+
+  (** the world right after the constructor calls on a new dispatcher *)
+  Definition fresh_world (sc : list cstep) : fwld := fw fs d0 (create d0 sc empty_sys).
+
+  Theorem reset_is_fresh sc rs : scoped d0 sc empty_sys ->
+    fst (reset f_reset I (run_from fsys f_update I (fresh_world sc) rs)) = fresh_world sc.
+  Proof.
+    intros Hsc. pose proof (create_good sc empty_sys Good_empty Hsc) as HG.
+    destruct (run_Rel _ rs d0 _ (Good_Rel _ HG)) as (s' & E & HR).
+    unfold fresh_world. rewrite E, reset_fw. f_equal. apply f_reset_fresh; [exact (proj1 HG)|exact HR].
+  Qed.
+
+  (** any number of episodes, each ended by a reset *)
+  Definition episode (w : fwld) (rs : list request) : fwld := fst (reset f_reset I (run_from fsys f_update I w rs)).
+
+  Theorem episodes_are_fresh sc eps : scoped d0 sc empty_sys ->
+    fold_left episode eps (fresh_world sc) = fresh_world sc.
+  Proof.
+    intros Hsc. induction eps as [|rs t IH]; [reflexivity|]. cbn [fold_left]. unfold episode at 2.
+    rewrite (reset_is_fresh sc rs Hsc). exact IH.
+  Qed.
+
+  Theorem after_reset_like_fresh sc eps rs : scoped d0 sc empty_sys ->
+    run_from fsys f_update I (fold_left episode eps (fresh_world sc)) rs =
+    run_from fsys f_update I (fresh_world sc) rs.
+  Proof. intros Hsc. rewrite (episodes_are_fresh sc eps Hsc). reflexivity. Qed.
 End Sys.
